@@ -167,11 +167,14 @@ class _Zc:
     zeroconf = None
 
 
-def fresh_controller(cache=None):
-    c = Controller(async_zeroconf_instance=_Zc(), char_cache=cache or CharacteristicCacheMemory())
-    c.transports[TransportType.IP] = IpController(char_cache=c._char_cache, zeroconf_instance=_Zc())
-    c.transports[TransportType.COAP] = CoAPController(char_cache=c._char_cache, zeroconf_instance=_Zc())
-    c.transports[TransportType.BLE] = BleController(char_cache=c._char_cache)
+def fresh_controller(cache=None, avail=("IP", "CoAP", "BLE")):
+    c = Controller(async_zeroconf_instance=_Zc(), char_cache=cache if cache is not None else CharacteristicCacheMemory())
+    if "IP" in avail:
+        c.transports[TransportType.IP] = IpController(char_cache=c._char_cache, zeroconf_instance=_Zc())
+    if "CoAP" in avail:
+        c.transports[TransportType.COAP] = CoAPController(char_cache=c._char_cache, zeroconf_instance=_Zc())
+    if "BLE" in avail:
+        c.transports[TransportType.BLE] = BleController(char_cache=c._char_cache)
     return c
 
 
@@ -213,9 +216,9 @@ def save_set(path, data):
     return vtime.run_shared(go())
 
 
-def load_set(path):
+def load_set(path, avail=("IP", "CoAP", "BLE")):
     async def go():
-        c = fresh_controller()
+        c = fresh_controller(avail=avail)
         c.load_data(path)
         return {alias: json.loads(json.dumps(p.pairing_data)) for alias, p in c.aliases.items()}
     return vtime.run_shared(go())
@@ -305,6 +308,21 @@ def run_roundtrip(case, R):
         got = load_set(path)
         if got != norm_set(data):
             R.fail("C20.pairings-roundtrip", f"loaded {got!r:.400} expected {norm_set(data)!r:.400}")
+        # a process in which a transport is not available (no Bluetooth adapter, no Thread radio) still loads every pairing of the others,
+        # wherever the unusable entries stand in the file
+        for avail in (("IP", "CoAP"), ("IP",), ("CoAP", "BLE"), ("BLE",)):
+            want = {a: pd for a, pd in norm_set(data).items() if pd["Connection"] in avail}
+            if len(want) == len(data):
+                continue
+            try:
+                part = load_set(path, avail)
+            except Exception as e:  # noqa: BLE001
+                R.fail("C20.pairings-roundtrip", f"transports {avail} only: load_data raised {type(e).__name__}: {e}")
+                return
+            R.cls("partial-transports")
+            if part != want:
+                R.fail("C20.pairings-roundtrip", f"transports {avail} only: loaded {sorted(part)} of the loadable {sorted(want)} (file order {list(data)})")
+                return
         # a second save of what was loaded is stable
         save_set(path, got)
         if load_set(path) != norm_set(data):
@@ -352,7 +370,13 @@ def run_cache(case, R):
         bk = bytes(case["broadcast_key"]) if case.get("broadcast_key") else None
 
         async def go():
-            p1 = IpPairing(_Ctl(CharacteristicCacheFile(loc)), dict(PD))
+            def mk():
+                # the pairing's controller: a bare holder of the cache, or the aggregate Controller the applications build (given the file cache,
+                # which is empty at the very first start) with its IP transport
+                if case.get("via_controller"):
+                    return fresh_controller(CharacteristicCacheFile(loc), avail=("IP",)).transports[TransportType.IP]
+                return _Ctl(CharacteristicCacheFile(loc))
+            p1 = IpPairing(mk(), dict(PD))
             p1.restore_accessories_state(json.loads(json.dumps(emap)), case.get("config_num", 1), bk, case.get("state_num"))
             # later write-throughs in the same process: only some of (config number, state number, broadcast key, a value) change
             cn, sn, key = case.get("config_num", 1), case.get("state_num"), bk
@@ -374,7 +398,7 @@ def run_cache(case, R):
                 p1.restore_accessories_state(m2, cn, key, sn)
             before = (model_view(p1.accessories), p1.config_num, p1.state_num, p1.broadcast_key)
             # restart
-            p2 = IpPairing(_Ctl(CharacteristicCacheFile(loc)), dict(PD))
+            p2 = IpPairing(mk(), dict(PD))
             if p2.accessories is None:
                 return before, None
             return before, (model_view(p2.accessories), p2.config_num, p2.state_num, p2.broadcast_key)
@@ -584,7 +608,19 @@ def run_ip_config(case, R):
             try:
                 if case.get("first_contact", True):
                     await p.list_accessories_and_characteristics()
-                for cn, value in case["steps"]:
+                for step in case["steps"]:
+                    cn, value = step[:2]
+                    if len(step) > 2 and step[2] == "down":
+                        # the accessory announces the new number and cannot be reached (it is still restarting): the new database cannot be
+                        # fetched - what is on disk must still be what the running pairing holds
+                        w.net.connect_policy = lambda host, n: "refuse"
+                        cur = w.acc.conns[-1] if w.acc.conns else None
+                        if cur is not None and cur.open:
+                            cur.close("fin")
+                        await vtime.settle(loop)
+                        R.cls("ip-config-change:unreachable")
+                    else:
+                        w.net.connect_policy = lambda host, n: "accept"
                     if value is not None:                     # the accessory's database changes together with its configuration number
                         for a_ in w.acc.db["accessories"]:
                             for s_ in a_["services"]:
@@ -592,7 +628,7 @@ def run_ip_config(case, R):
                                     if c_.get("format") == "string" and "pr" in c_.get("perms", []):
                                         c_["value"] = value
                     p._async_description_update(dataclasses.replace(description(["10.0.0.5"], 51826, 1), config_num=cn, id=w.pairing_data["AccessoryPairingID"].lower()))
-                    await asyncio.sleep(2)
+                    await asyncio.sleep(2 if len(step) < 3 else 40)
                     await vtime.settle(loop)
                 if p.accessories is None:
                     return None
@@ -624,12 +660,16 @@ def enum_ip_config(tier):
     yield {"steps": [[1, None]], "first_contact": False}
     yield {"steps": [[3, "x"], [3, None], [7, "y"]], "first_contact": True}
     yield {"steps": [[5, None], [2, "older number"]], "first_contact": False}
+    yield {"steps": [[2, "new", "down"]], "first_contact": True}
+    yield {"steps": [[2, None], [4, "new", "down"]], "first_contact": True}
+    yield {"steps": [[3, "a", "down"], [3, "a"]], "first_contact": True}
 
 
 @st.composite
 def ip_config_cases(draw):
     n = draw(st.integers(1, 4))
-    return {"steps": [[draw(st.sampled_from([1, 2, 3, 5, 9, 255, 65535])), draw(st.sampled_from([None, None, "a", "ü"]))] for _ in range(n)],
+    return {"steps": [[draw(st.sampled_from([1, 2, 3, 5, 9, 255, 65535])), draw(st.sampled_from([None, None, "a", "ü"]))] + (["down"] if draw(st.integers(0, 3)) == 0 else [])
+                      for _ in range(n)],
             "first_contact": draw(st.booleans()), "k": draw(st.integers(0, 5))}
 
 
@@ -786,7 +826,7 @@ def cache_cases(draw):
                                                             "key": st.one_of(st.none(), st.binary(min_size=32, max_size=32)),
                                                             "value": st.one_of(st.integers(0, 200), st.sampled_from([2**53 + 1, 2**63 + 12345, 2**64 - 1]))}), max_size=3))
     return {"map": draw(entity_maps()), "config_num": draw(st.integers(0, 70000)), "state_num": draw(st.one_of(st.none(), st.integers(0, 65535))),
-            "broadcast_key": draw(st.one_of(st.none(), st.binary(min_size=32, max_size=32))), "updates": ups}
+            "broadcast_key": draw(st.one_of(st.none(), st.binary(min_size=32, max_size=32))), "updates": ups, "via_controller": draw(st.booleans())}
 
 
 def enum_fixtures(tier):
@@ -800,6 +840,7 @@ def enum_fixtures(tier):
         yield {"map": m0, "config_num": 2, "state_num": 1, "updates": [{"value": big}]}
     for f in sorted(glob.glob(os.path.join(REPO, "tests", "fixtures", "*.json"))):
         yield {"fixture": os.path.basename(f), "config_num": 7, "state_num": 3, "broadcast_key": bytes(range(32))}
+        yield {"fixture": os.path.basename(f), "config_num": 7, "state_num": 3, "broadcast_key": bytes(range(32)), "via_controller": True}
         yield {"fixture": os.path.basename(f), "config_num": 7, "state_num": 3, "broadcast_key": None, "updates": [{"sn": 42}, {"key": bytes(range(1, 33))}]}
 
 
